@@ -141,6 +141,14 @@ impl<F: RichField + Extendable<D>, const D: usize> CircuitBuilder<F, D> {
                 honest() ==> final(self).sat() == old(self).sat(),   // TB-5: a computing gadget's own constraints hold for the generators' witness
                 honest() ==> val(r) == 1,
     { unimplemented!() }
+    /// plonky2 circuit_builder.rs neg_one(): the constant -1 of the FIELD, i.e. p - 1 (not 2^32 - 1 or 2^64 - 1)
+    #[verifier::external_body]
+    pub fn neg_one(&mut self) -> (r: Target)
+        ensures bframe(old(self), final(self)), bext(old(self), final(self)),
+                final(self).sat() ==> val(r) == P() - 1,
+                honest() ==> final(self).sat() == old(self).sat(),
+                honest() ==> val(r) == P() - 1,
+    { unimplemented!() }
     #[verifier::external_body]
     pub fn _false(&mut self) -> (r: BoolTarget)
         ensures bframe(old(self), final(self)), bext(old(self), final(self)),
